@@ -138,7 +138,7 @@ func deadlineRule(p *core.Prog, r *core.Report, sp deadlineSpec) {
 				// term and unit
 				unit := periodUnit(term, sp.amount)
 				if unit == "" {
-					r.Violate(sp.rule, key, x.Pos(), "period term "+term+" is not int64("+sp.amount+"), int64("+sp.amount+")*60 or int64("+sp.amount+")/1000 (widen before scaling: a uint16 product wraps)", x.St.Trace)
+					r.Violate(sp.rule, key, x.Pos(), "period term "+term+" is not int64("+sp.amount+"), int64("+sp.amount+")*60 or (int64("+sp.amount+")+999)/1000 (widen before scaling: a uint16 product wraps)", x.St.Trace)
 					return
 				}
 				isMin := histHas(x, sp.flagName+" & "+minute+") != 0")
@@ -153,6 +153,9 @@ func deadlineRule(p *core.Prog, r *core.Report, sp deadlineSpec) {
 					okUnit = notMin && notMs
 				case "millisecond":
 					okUnit = isMs || strings.Contains(fname, "checkMillisecond")
+				case "millisecond-truncated":
+					r.Violate(sp.rule, key, x.Pos(), "the millisecond period is converted to whole seconds by a truncating division ("+term+"): the +1 only covers the truncation of the start second, so a period of q*1000+r ms ends up to r ms early (3999 ms queued at x.8 s ends after 3.2 s); it has to be rounded up", x.St.Trace)
+					return
 				}
 				if !okUnit {
 					r.Violate(sp.rule, key, x.Pos(), fmt.Sprintf("%s formula used on a path with flags minute=%v/%v millisecond=%v/%v", unit, isMin, notMin, isMs, notMs), x.St.Trace)
@@ -176,7 +179,7 @@ func periodUnit(term, amount string) string {
 			return "second"
 		}
 		if l, rr, ok := splitTop(in, "/"); ok && isAmt(l) && rr == "1000" {
-			return "millisecond"
+			return "millisecond-truncated"
 		}
 		return ""
 	}
@@ -187,7 +190,13 @@ func periodUnit(term, amount string) string {
 	}
 	if l, rr, ok := splitTop(term, "/"); ok && rr == "1000" {
 		if in, ok := unwrapCall(l, "int64"); ok && isAmt(in) {
-			return "millisecond"
+			return "millisecond-truncated"
+		}
+		// rounded up: (int64(amount) + 999) / 1000
+		if a, b, ok := splitTop(l, "+"); ok && b == "999" {
+			if in, ok := unwrapCall(a, "int64"); ok && isAmt(in) {
+				return "millisecond"
+			}
 		}
 	}
 	return ""
